@@ -53,6 +53,9 @@ TABLE = [
      "coordinates, the convention of regions_and_shifts()"),
     (("C06",), "jxl_render::util::pad_upsampling", "calls", "FrameFlags::patches", "D46",
      "with patches, extra channels are upsampled in two stages: the padding counts the passes of both"),
+    (("C06",), "jxl_render::modular::compute_modular_region", "calls", "::has_palette", "seed-C06e",
+     "any Palette transform forces a full-frame Modular decode: implicit delta entries (negative indices) are predicted from neighbours "
+     "across group borders even when nb_deltas = 0 (confirmed by reading Palette::inverse_inner; a seeded change narrowed this to delta palettes)"),
     (("C01", "C03"), "jxl_modular::ma::MaTreeNode::try_compile_to_table", "compare", "value > ret:end", "D39",
      "a decision whose threshold lies above the node's range is redundant: only the right child is reachable"),
     (("C01", "C03"), "jxl_modular::ma::MaTreeNode::try_compile_to_table", "compare", "(value+1) < ret:start", "D39",
@@ -178,7 +181,7 @@ def run(ctx, pid):
             elif not sites:
                 ctx.bad(rid, key + "|missing", "the call `%s` the %s guard protects is no longer found in %s" % (target, defect, prefix), fn=fam[0])
             else:
-                ctx.bad(rid, key + "|missing", "the guard that repaired %s is gone from %s: a call of %s is not dominated by a branch on `%s`: %s"
+                ctx.bad(rid, key + "|missing", "the guard recorded for %s is gone from %s: a call of %s is not dominated by a branch on `%s`: %s"
                         % (defect, prefix, target, guard, why), fn=fam[0])
             continue
         if kind == "calls-own":
@@ -246,5 +249,5 @@ def run(ctx, pid):
         if found:
             ctx.ok(rid, key, "%s (%s)" % (why, defect), nontrivial=True, fn=fam[0])
         else:
-            ctx.bad(rid, key + "|missing", "the guard that repaired %s is gone from %s (%s `%s`): %s" % (defect, prefix, kind, text, why), fn=fam[0])
+            ctx.bad(rid, key + "|missing", "the guard recorded for %s is gone from %s (%s `%s`): %s" % (defect, prefix, kind, text, why), fn=fam[0])
     ctx.count(rid + ".entries", n)
